@@ -122,15 +122,26 @@ Definition enum_ok (t : enum_tab) : bool :=
   | _ => true
   end.
 
+(* every keyword is one whitespace-free, non-empty token: needed where the enumeration is a
+   column of a whitespace-separated record (PackageListEntry, changes::File) *)
+Definition enum_tokens_ok (t : enum_tab) : bool :=
+  forallb (fun v => match enum_print t v with
+                    | Ok k => negb (is_empty k) && forallb (fun c => negb (is_ws c)) k
+                    | _ => false
+                    end) (enum_values t).
+
 (* parse_origin's own keyword arms agree with OriginCategory's Display table, the two separators
-   are the same non-empty string, and no keyword contains the separator. *)
+   are the same non-empty string, and in "keyword<sep>" the first separator is the appended one. *)
 Definition origin_ok (cat : enum_tab) (o : origin_tab) : bool :=
   ot_recognised o &&
   str_eqb (ot_sep_parse o) (ot_sep_print o) &&
   negb (is_empty (ot_sep_parse o)) &&
   forallb (fun v => match enum_print cat v with
                     | Ok k => match assoc_s k (ot_arms o) with Some v' => (v =? v')%N | None => false end
-                              && negb (contains_sub (ot_sep_parse o) k)
+                              && (match find_sub (ot_sep_parse o) (k ++ ot_sep_parse o) with
+                                  | Some (a, _) => str_eqb a k      (* the first separator in "kw<sep>" is the appended one *)
+                                  | None => false
+                                  end)
                     | _ => false
                     end) (enum_values cat) &&
   forallb (fun lv => match assoc_s (fst lv) (ot_arms o) with
